@@ -56,26 +56,29 @@ MANIFEST = {
 PROPS = {
     "C15": ["TriggerStartsRebroadcast", "RejectedNeverRebroadcast", "NotAfterConfirmed", "ParentsFirst",
             "RebroadcastComplete", "MarkConfirmedReturns", "StopReturns", "BroadcastReturns",
-            "FailOnlyIfAllRejectedOrThreshold"],
+            "FailOnlyIfAllRejectedOrThreshold", "RejectedByEveryReplierNotAccepted"],
 }
 
 CODE_VERSION = json.load(open(os.path.join(SPEC, "code_version.json")))
 
 CONFIGS = {
     "quick": dict(
-        B=dict(NTx=2, MaxOps=5, MaxM=2, Outs='{"ok","mempool","invalid"}', ROuts='{"ok","confirmed"}'),
-        S=dict(NP=3, Thrs="{50,60}", Codes="{1,2}", MaxDelay=1, MaxX=0, MaxDup=1),
-        BF=dict(NTx=2, MaxOps=5, MaxM=2, Outs='{"ok","mempool","invalid"}', ROuts='{"ok","confirmed"}'),
-        walks=0, depth=0, keep=10, tries=24),
+        B=dict(NTx=2, MaxOps=5, MaxM=2, MaxWait=3, Outs='{"ok","mempool","xmempool","invalid"}',
+               ROuts='{"ok","confirmed"}'),
+        S=dict(NP=3, Thrs="{60}", Codes="{1,2}", MaxDelay=1, MaxX=0, MaxDup=1),
+        # messages about another hash (reject, getdata), two peers
+        S2=dict(NP=2, Thrs="{50,60}", Codes="{1,2,4}", MaxDelay=1, MaxX=2, MaxDup=1),
+        BF=dict(NTx=2, MaxOps=5, MaxM=2, MaxWait=3, Outs='{"ok","mempool","invalid"}', ROuts='{"ok","confirmed"}'),
+        walks=0, depth=0, keep=10, tries=8),
     "thorough": dict(
-        B=dict(NTx=3, MaxOps=5, MaxM=1, Outs='{"ok","mempool","invalid"}', ROuts='{"ok","confirmed"}'),
+        B=dict(NTx=3, MaxOps=5, MaxM=1, MaxWait=3, Outs='{"ok","mempool","invalid"}', ROuts='{"ok","confirmed"}'),
         S=dict(NP=4, Thrs="{50,60,100}", Codes="{1,2,3,4,5}", MaxDelay=1, MaxX=0, MaxDup=0),
         # repeated messages (second getdata / second reject, also of another class) and unrelated rejects
         S2=dict(NP=3, Thrs="{50,60}", Codes="{1,2,4}", MaxDelay=1, MaxX=1, MaxDup=2),
-        BF=dict(NTx=3, MaxOps=5, MaxM=2, Outs='{"ok","mempool","invalid"}', ROuts='{"ok","confirmed","invalid"}'),
+        BF=dict(NTx=3, MaxOps=5, MaxM=2, MaxWait=3, Outs='{"ok","mempool","invalid"}', ROuts='{"ok","confirmed","invalid"}'),
         walks=4000, depth=14, keep=20, tries=60,
         # a second, smaller Broadcaster graph with every outcome class
-        B2=dict(NTx=2, MaxOps=5, MaxM=2,
+        B2=dict(NTx=2, MaxOps=5, MaxM=2, MaxWait=3,
                 Outs='{"ok","mempool","xmempool","confirmed","invalid","fee","unknown","plain"}',
                 ROuts='{"ok","mempool","confirmed","xconfirmed","invalid","plain"}')),
 }
